@@ -26,7 +26,7 @@ PROPERTY = 'C04'
 EPS = {1: [0.1], 2: [0.1, 0.1], 3: [0.05, 0.2, 1.5]}
 
 META = {
-    'bounds': {'quick': 'concrete staircase archives of 6/7/9 members + symbolic newcomer; shared default comparator k<=3, m<=3; step: n<=4 members, m<=2 objectives (+ boolean marker), Pareto and epsilon comparator; histories k<=3, m<=2; truncate n<=4',
+    'bounds': {'quick': 'real-valued feasibility markers (n<=2); concrete staircase archives of 6/7/9 members + symbolic newcomer; shared default comparator k<=3, m<=3; step: n<=4 members, m<=2 objectives (+ boolean marker), Pareto and epsilon comparator; histories k<=3, m<=2; truncate n<=4',
                'thorough': 'step: n<=6 (m<=2), n<=5 (m=3); histories k<=4 (m<=2), k<=3 (m=3); truncate n<=5'},
     'stubs': ['ParetoDominance.compare / EpsilonDominance.compare (fixed positive epsilon lists) through ite summaries'],
     'assumptions': ['floats as reals (epsilon tie-break of identical vectors: dist1 = dist2 = 0 in the reals)',
